@@ -3,6 +3,8 @@
 package tsm1
 
 import (
+	"github.com/influxdata/influxql"
+	"math"
 	"sort"
 	"time"
 
@@ -50,4 +52,24 @@ func vKeys(m map[string]bool) []string {
 	}
 	sort.Strings(out)
 	return out
+}
+
+type modelsPoint = models.Point
+
+func mathFloat64frombits(b uint64) float64 { return math.Float64frombits(b) }
+
+func vTypeOfInfluxQL(t influxql.DataType) byte {
+	switch t {
+	case influxql.Float:
+		return 'f'
+	case influxql.Integer:
+		return 'i'
+	case influxql.Unsigned:
+		return 'u'
+	case influxql.String:
+		return 's'
+	case influxql.Boolean:
+		return 'b'
+	}
+	return 0
 }
